@@ -17,6 +17,17 @@ Three model streams:
                     with dependent or inconsistent extra rows).  An accepted singular system is
                     keyed by its shape (`singular_shape`), so that only the shape the known findings
                     describe keeps their keys.
+Two oracle-only streams (no model side; the statement itself on the real code):
+  * `coefficients-history`  one or two long-lived collectors applied to a sequence of expressions
+                    that share compound subexpressions (bare / scaled / divided by a constant, as
+                    one shared object or as equal objects); every call judged by `judge_coeffs`,
+                    every returned dictionary judged again at the end of the history.  The
+                    `coefficients` stream carries the single-expression half of the same family
+                    (kind `shared`: one compound several times in one expression).
+  * `solve-number-domains`  the solver on systems whose numbers are Python int / bool / float /
+                    Fraction and numpy integer / floating scalars of several widths (small dyadic
+                    values, exact in every type), integral and non-integral data; accepted systems
+                    judged over Q with the numbers read as the rationals they are.
 """
 from __future__ import annotations
 
@@ -228,6 +239,57 @@ def has_target_named_attr(e, tg) -> bool:
     return tg is not None and any(isinstance(s, p.Lookup) and s.name in tg
                                   for s in scan.subterms(e))
 
+def judge_coeffs(e, tg, outcome):
+    """The collector clause of the property on ONE call: `outcome` is the dictionary returned for
+    `e` under the target set `tg`, or the exception raised.  None, or (key, detail)."""
+    if isinstance(outcome, BaseException):
+        ex = outcome
+        if in_affine_class(e, tg):
+            key = "affine-rejected"
+            if has_empty_sum(e):
+                key = "affine-rejected:empty-sum"
+            elif has_target_named_attr(e, tg):
+                key = "lookup-attr-taken-for-target"
+            return key, f"affine in {tg} but raised {type(ex).__name__}: {str(ex)[:80]}"
+        return None
+    d = outcome
+    # 1. keys are targets, coefficients are free of targets
+    for k, c in d.items():
+        if not (isinstance(k, int) and k == 1):
+            if not is_target_leaf(k, tg):
+                key = ("lookup-attr-taken-for-target" if has_target_named_attr(k, tg)
+                       else "key-not-target")
+                return key, f"key {show(k)} is not one of {tg}"
+        occ = target_occurrences(c, tg) if tg is not None else (
+            [(s, True) for s in scan.subterms(c) if isinstance(s, LEAF_CLASSES)])
+        if occ:
+            why = ":leaf" if all(inside for _v, inside in occ) else ""
+            return ("coefficient-mentions-target" + why,
+                    f"coefficient {show(c)} of key {show(k)} mentions target {show(occ[0][0])}")
+    # 2. the linear form evaluates to the expression wherever the expression is defined
+    for env in ENV_BOX:
+        try:
+            want = qeval(e, env)
+        except RecursionError:
+            raise
+        except Exception:
+            continue
+        try:
+            got = Fraction(0)
+            for k, c in d.items():
+                got += qeval(c, env) * (1 if (isinstance(k, int) and k == 1) else qeval(k, env))
+        except RecursionError:
+            raise
+        except Exception as ex:
+            return ("linear-form-undefined",
+                    f"expression evaluates to {want} but the linear form raises "
+                    f"{type(ex).__name__} at x,y,z={env['x']},{env['y']},{env['z']}")
+        if got != want:
+            return ("value-differs",
+                    f"linear form {got} != expression {want} at "
+                    f"x,y,z={env['x']},{env['y']},{env['z']}")
+    return None
+
 # }}}
 
 
@@ -343,6 +405,75 @@ class AffGen:
                               p.Quotient(self.aff(d - 1), lk)])
 
 
+class SharedGen:
+    """Expressions in which one COMPOUND subexpression (a Sum or Product that is affine in the
+    targets, or a target-free one) occurs several times in different surroundings: bare, scaled
+    from the left / right, as the numerator of a quotient by a constant (once, twice), as a
+    denominator, inside a further sum; the occurrences in every order.  What the collector does
+    with one occurrence must not depend on what it did with another."""
+
+    DENS = [2, 3, 4, -2, 5, -1, 1, 6]
+
+    def __init__(self, rng, tg):
+        self.r = rng
+        self.g = AffGen(rng, tg)
+
+    def compound(self, d=2):
+        """a Sum / Product that is affine in the targets (target-free when there are none)"""
+        r, g = self.r, self.g
+        for _ in range(20):
+            k = r.random()
+            if k < 0.5:
+                n = r.randint(2, 3)
+                c = p.Sum(tuple(g.aff(d - 1) if r.random() < 0.75 else g.free(d - 1)
+                                for _ in range(n)))
+            elif k < 0.85:
+                fs = [g.aff(d - 1)] + [r.choice([g.const(), g.const(), g.free(d - 1)])
+                                       for _ in range(r.randint(1, 2))]
+                r.shuffle(fs)
+                c = p.Product(tuple(fs))
+            else:
+                c = g.free(d)
+            if isinstance(c, (p.Sum, p.Product)) and c.children:
+                return c
+        return p.Sum((g.aff(0), g.const()))
+
+    def use(self, s, nonaffine=False):
+        """one occurrence of `s` in some surroundings"""
+        r, g = self.r, self.g
+        c, c2 = r.choice(self.DENS), r.choice(self.DENS)
+        f = g.free(1)
+        if nonaffine:
+            return r.choice([p.Product((s, s)), p.Quotient(f, s), p.Power(s, 2),
+                             p.Product((p.Quotient(s, c), s))])
+        return r.choice([
+            s, s,
+            p.Product((c, s)), p.Product((s, c)), p.Product((f, s)), p.Product((c, s, c2)),
+            p.Quotient(s, c), p.Quotient(s, c), p.Quotient(s, f),
+            p.Quotient(p.Quotient(s, c), c2),
+            p.Quotient(p.Product((c, s)), c2),
+            p.Product((c, p.Quotient(s, c2))),
+            p.Sum((s, g.aff(1))), p.Sum((g.free(1), s)),
+            p.Quotient(p.Sum((s, g.aff(1))), c),
+        ])
+
+    def over(self, pool, nonaffine=0.0):
+        """an expression built from 1..4 occurrences of members of `pool`"""
+        r = self.r
+        uses = [self.use(r.choice(pool), nonaffine=r.random() < nonaffine)
+                for _ in range(r.randint(1, 4))]
+        if r.random() < 0.3:
+            uses.append(self.g.aff(1))
+        r.shuffle(uses)
+        e = uses[0] if len(uses) == 1 else p.Sum(tuple(uses))
+        k = r.random()
+        if k < 0.12:
+            e = p.Quotient(e, r.choice(self.DENS))
+        elif k < 0.24:
+            e = p.Product((r.choice(self.DENS), e))
+        return e
+
+
 def small_shapes():
     """all two-level and some three-level expressions over a small atom set"""
     x, y, pp = p.Variable("x"), p.Variable("y"), p.Variable("p")
@@ -406,6 +537,13 @@ class CoeffStream(Stream):
             else:
                 e, kind = eg.gen("num", rng.randint(1, 3)), "random"
             yield {"expr": enc(e), "targets": tg, "kind": kind}
+        # one compound subexpression several times in one expression (see SharedGen)
+        for i in range(500 if tier == "quick" else 8000):
+            tg = TARGET_SETS[i % len(TARGET_SETS)]
+            sg = SharedGen(rng, tg)
+            pool = [sg.compound(rng.randint(1, 2)) for _ in range(rng.randint(1, 2))]
+            e = sg.over(pool, nonaffine=0.08)
+            yield {"expr": enc(e), "targets": tg, "kind": "shared"}
 
     def request(self, pl):
         return f"(c15-coeffs {tg_req(pl['targets'])} {pl['expr']})"
@@ -435,52 +573,11 @@ class CoeffStream(Stream):
         except RecursionError:
             raise
         except Exception as ex:
-            e = sx_to_expr(loads(pl["expr"]))
-            if in_affine_class(e, tg):
-                key = "affine-rejected"
-                if has_empty_sum(e):
-                    key = "affine-rejected:empty-sum"
-                elif has_target_named_attr(e, tg):
-                    key = "lookup-attr-taken-for-target"
-                return Failure(key,
-                               f"affine in {tg} but raised {type(ex).__name__}: {str(ex)[:80]}", pl)
+            e, d = sx_to_expr(loads(pl["expr"])), ex
+        verdict = judge_coeffs(e, tg, d)
+        if verdict is None:
             return None
-        # 1. keys are targets, coefficients are free of targets
-        for k, c in d.items():
-            if not (isinstance(k, int) and k == 1):
-                if not is_target_leaf(k, tg):
-                    key = ("lookup-attr-taken-for-target" if has_target_named_attr(k, tg)
-                           else "key-not-target")
-                    return Failure(key, f"key {show(k)} is not one of {tg}", pl)
-            occ = target_occurrences(c, tg) if tg is not None else (
-                [(s, True) for s in scan.subterms(c) if isinstance(s, LEAF_CLASSES)])
-            if occ:
-                why = ":leaf" if all(inside for _v, inside in occ) else ""
-                return Failure("coefficient-mentions-target" + why,
-                               f"coefficient {show(c)} of key {show(k)} mentions target {show(occ[0][0])}", pl)
-        # 2. the linear form evaluates to the expression wherever the expression is defined
-        for env in ENV_BOX:
-            try:
-                want = qeval(e, env)
-            except RecursionError:
-                raise
-            except Exception:
-                continue
-            try:
-                got = Fraction(0)
-                for k, c in d.items():
-                    got += qeval(c, env) * (1 if (isinstance(k, int) and k == 1) else qeval(k, env))
-            except RecursionError:
-                raise
-            except Exception as ex:
-                return Failure("linear-form-undefined",
-                               f"expression evaluates to {want} but the linear form raises "
-                               f"{type(ex).__name__} at x,y,z={env['x']},{env['y']},{env['z']}", pl)
-            if got != want:
-                return Failure("value-differs",
-                               f"linear form {got} != expression {want} at "
-                               f"x,y,z={env['x']},{env['y']},{env['z']}", pl)
-        return None
+        return Failure(verdict[0], verdict[1], pl)
 
     def shrink(self, pl):
         for s in sx_shrinks(loads(pl["expr"])):
@@ -507,6 +604,168 @@ class CoeffStream(Stream):
                 except Exception:
                     pass
             acc["value_checked_envs"] = acc.get("value_checked_envs", 0) + n
+
+# }}}
+
+
+# {{{ stream 1b: one collector object, several expressions one after the other
+
+def _dict_text(d):
+    try:
+        return [(dumps(expr_to_sx(k)), dumps(expr_to_sx(c))) for k, c in d.items()]
+    except Exception:
+        return [(show(k), show(c)) for k, c in d.items()]
+
+
+class CoeffHistoryStream(Stream):
+    """The collector clause on HISTORIES: one or two long-lived `CoefficientCollector` objects
+    (their own target sets) are applied to a sequence of expressions that share compound
+    subexpressions (`SharedGen`: the same sum / product bare, scaled, divided by a constant, ... in
+    one expression after the other; equal trees either as one shared object or as separate equal
+    objects).  The `coefficients` stream makes a fresh collector for every expression, so nothing a
+    collector keeps between calls is ever seen there.  Every call is judged by the statement itself
+    (`judge_coeffs`: keys are targets, coefficients free of targets, the linear form evaluates to
+    the expression; affine input is not rejected), and every returned dictionary is judged again
+    when the history is over (a later call must not change what an earlier one returned).  A step
+    that fails only on the reused collector is keyed `reused-collector:<key>`; one that fails on a
+    fresh collector as well keeps the plain key of the `coefficients` stream."""
+    name = "coefficients-history"
+    has_model = False
+
+    def cases(self, rng, tier):
+        enc = lambda e: dumps(expr_to_sx(e))  # noqa: E731
+        n = 420 if tier == "quick" else 8000
+        named = [t for t in TARGET_SETS if t]
+        for i in range(n):
+            tgs = [TARGET_SETS[i % len(TARGET_SETS)]]
+            if rng.random() < 0.3:
+                tgs.append(rng.choice(TARGET_SETS))
+            sg = SharedGen(rng, tgs[0] if tgs[0] != [] else rng.choice(named))
+            pool = [sg.compound(rng.randint(1, 2)) for _ in range(rng.randint(1, 3))]
+            steps = []
+            for _ in range(rng.randint(2, 6)):
+                k = rng.random()
+                if k < 0.2:
+                    e = rng.choice(pool)
+                elif k < 0.85:
+                    e = sg.over(pool, nonaffine=0.05)
+                elif k < 0.93 and steps:
+                    # an earlier expression of this history again, as it is or inside a new one
+                    prev = sx_to_expr(loads(rng.choice(steps)[1]))
+                    e = rng.choice([prev, p.Quotient(prev, rng.choice(SharedGen.DENS)),
+                                    p.Sum((prev, sg.g.aff(1)))])
+                else:
+                    e = sg.g.aff(rng.randint(1, 3))
+                steps.append([rng.randrange(len(tgs)), enc(e)])
+            yield {"collectors": tgs, "share": rng.random() < 0.5, "steps": steps}
+        # the plain patterns for every target set: a compound, divided / scaled / bare, every order
+        x, y, z = (p.Variable(v) for v in "xyz")
+        for comp in (p.Sum((x, p.Product((2, y)), z)), p.Product((2, x)), p.Sum((x, 3))):
+            forms = [comp, p.Quotient(comp, 2), p.Product((3, comp)),
+                     p.Sum((p.Quotient(comp, 4), comp)), p.Quotient(p.Quotient(comp, 2), 3)]
+            orders = list(itertools.permutations(range(len(forms)), 3))
+            if tier == "quick":
+                orders = rng.sample(orders, 12)
+            for order in orders:
+                for tg in (None, ["x"], ["x", "y"]):
+                    yield {"collectors": [tg], "share": bool(order[0] % 2),
+                           "steps": [[0, enc(forms[j])] for j in order]}
+
+    def request(self, pl):
+        return "(noop)"
+
+    @staticmethod
+    def _exprs(pl):
+        from ..sexp import hashcons
+        memo = {}
+        es = [sx_to_expr(loads(sx)) for _ci, sx in pl["steps"]]
+        if pl.get("share"):
+            es = [hashcons(e, memo) for e in es]
+        return es
+
+    def _run(self, pl):
+        """[(expression, target set, dictionary | exception, text of the dictionary when returned)]"""
+        from pymbolic.mapper.coefficient import CoefficientCollector
+        ccs = [CoefficientCollector(tg) for tg in pl["collectors"]]
+        rows = []
+        for (ci, _sx), e in zip(pl["steps"], self._exprs(pl)):
+            try:
+                d = ccs[ci](e)
+            except RecursionError:
+                raise
+            except Exception as ex:
+                rows.append((e, pl["collectors"][ci], ex, None))
+                continue
+            rows.append((e, pl["collectors"][ci], d, _dict_text(d) if isinstance(d, dict) else None))
+        return rows
+
+    def run_impl(self, pl):
+        out = []
+        for _e, _tg, d, _t in self._run(pl):
+            if isinstance(d, BaseException):
+                out.append(err_sx(d))
+            else:
+                out.append("(dict" + "".join(f" ({dumps(expr_to_sx(k))} {dumps(expr_to_sx(c))})"
+                                             for k, c in d.items()) + ")")
+        return "(" + " ".join(out) + ")"
+
+    def oracle(self, pl):
+        from pymbolic.mapper.coefficient import CoefficientCollector
+        rows = self._run(pl)
+        judged = []
+        for n, (e, tg, d, _text) in enumerate(rows):
+            if has_exotic(e):
+                judged.append(None)
+                continue
+            v = judge_coeffs(e, tg, d)
+            judged.append(v)
+            if v is None:
+                continue
+            # the same expression on a collector that has seen nothing else
+            try:
+                fresh = CoefficientCollector(tg)(sx_to_expr(loads(pl["steps"][n][1])))
+            except RecursionError:
+                raise
+            except Exception as ex:
+                fresh = ex
+            v2 = judge_coeffs(e, tg, fresh)
+            where = (f"step {n} of {len(rows)} on collector {pl['steps'][n][0]} "
+                     f"(targets {tg}), expression {show(e)}: ")
+            if v2 is not None and v2[0] == v[0]:
+                return Failure(v[0], where + v[1], pl)
+            return Failure("reused-collector:" + v[0],
+                           where + v[1] + " (a fresh collector gets this expression right)", pl)
+        for n, (e, tg, d, text) in enumerate(rows):
+            if text is None or has_exotic(e):
+                continue
+            if _dict_text(d) != text:
+                v = judge_coeffs(e, tg, d)
+                if v is not None:
+                    return Failure("returned-dict-changed-later:" + v[0],
+                                   f"the dictionary returned at step {n} for {show(e)} (targets {tg}) "
+                                   f"was {text} and is {_dict_text(d)} after the later calls: " + v[1], pl)
+        return None
+
+    def shrink(self, pl):
+        steps = pl["steps"]
+        for i in range(len(steps)):
+            if len(steps) > 1:
+                yield {**pl, "steps": steps[:i] + steps[i + 1:]}
+        if len(pl["collectors"]) > 1 and all(ci == 0 for ci, _ in steps):
+            yield {**pl, "collectors": pl["collectors"][:1]}
+        if pl.get("share"):
+            yield {**pl, "share": False}
+        for i, (ci, sx) in enumerate(steps):
+            for sm in sx_shrinks(loads(sx)):
+                yield {**pl, "steps": steps[:i] + [[ci, dumps(sm)]] + steps[i + 1:]}
+
+    def nontrivial_key(self, pl, model, impl):
+        return str(pl["collectors"]) + str(pl["steps"])
+
+    def stats(self, pl, mo, io, acc):
+        acc["steps"] = acc.get("steps", 0) + len(pl["steps"])
+        acc["two_collectors"] = acc.get("two_collectors", 0) + (len(pl["collectors"]) > 1)
+        acc["shared_objects"] = acc.get("shared_objects", 0) + bool(pl.get("share"))
 
 # }}}
 
@@ -1172,6 +1431,379 @@ class SingularSolveStream(SolveStream):
 # }}}
 
 
+# {{{ stream 3c: solve_affine_equations_for with numbers of every kind
+
+NUMBER_DOMAINS = ["int", "bool", "float", "Fraction", "np.int8", "np.int32", "np.int64", "np.uint8",
+                  "np.float16", "np.float32", "np.float64"]
+INTEGRAL_DOMAINS = {"int", "bool", "np.int8", "np.int32", "np.int64", "np.uint8"}
+
+
+def number_class(dom) -> str:
+    if dom.startswith("np.float"):
+        return "numpy-floating"
+    if dom.startswith("np."):
+        return "numpy-integer"
+    return dom
+
+
+def make_number(dom, n, d):
+    """the number n/d as an object of the domain (d is a power of two <= 8: exact in every
+    floating type used here, so `the value of the number' means the same in every domain)"""
+    if dom in INTEGRAL_DOMAINS:
+        assert d == 1
+    if dom == "int":
+        return int(n)
+    if dom == "bool":
+        assert n in (0, 1)
+        return bool(n)
+    if dom == "float":
+        return n / d
+    if dom == "Fraction":
+        return Fraction(n, d)
+    import numpy as np
+    ty = getattr(np, dom[3:])
+    return ty(n) if d == 1 else ty(n / d)
+
+
+def exact_number(v):
+    """the rational value of a number object of any kind, None if it has none"""
+    import math
+    import numpy as np
+    if isinstance(v, (bool, np.bool_)):
+        return Fraction(int(v))
+    if isinstance(v, (int, np.integer)):
+        return Fraction(int(v))
+    if isinstance(v, Fraction):
+        return v
+    if isinstance(v, (float, np.floating)):
+        f = float(v)
+        if math.isnan(f) or math.isinf(f):
+            return None
+        return Fraction(f)
+    return None
+
+
+def qeval_numbers(e, env):
+    """`qeval` with every real number constant (Python / numpy, integral / floating, Fraction)
+    read as the rational number it is.  Only meant for trees whose numbers are small dyadic
+    rationals, where nothing depends on rounding."""
+    import numpy as np
+    if isinstance(e, (bool, int, float, Fraction, np.number, np.bool_)) and not isinstance(e, complex):
+        v = exact_number(e)
+        if v is None:
+            raise NotExact
+        return v
+    if isinstance(e, p.Sum):
+        acc = Fraction(0)
+        for c in e.children:
+            acc += qeval_numbers(c, env)
+        return acc
+    if isinstance(e, p.Product):
+        acc = Fraction(1)
+        for c in e.children:
+            acc *= qeval_numbers(c, env)
+        return acc
+    if isinstance(e, p.Quotient):
+        return qeval_numbers(e.numerator, env) / qeval_numbers(e.denominator, env)
+    return qeval(e, env)
+
+
+class NumberDomainSolveStream(SolveStream):
+    """The solver clause with the numbers of the equations drawn from every kind of number a
+    caller can write: Python int / bool / float / Fraction, numpy integer scalars of several
+    widths, numpy floating scalars of several widths - as constant terms, as coefficients of
+    parameters and as coefficients of unknowns, mixed with plain ints, in explicit trees and as
+    built by the overloaded operators.  The values are small dyadic rationals (k, k/2, k/4, k/8),
+    exact in every one of these types, so a system has ONE meaning over the rationals whatever the
+    types are.  Most systems are uniquely solvable over Q; about half of them have an integral
+    solution, the others have a fractional part somewhere in the data (then the unique solution is
+    not integral and the statement demands a raise).  The statement is checked as in `solve`:
+    raising is always allowed; an accepted system must be uniquely solvable, its solution integral,
+    and the returned assignment must satisfy every equation identically in the parameters (linear
+    forms by exact evaluation, numbers read by `exact_number`).  Keys: the key of the `solve` stream
+    for accepted singular systems (their shape decides), otherwise `solver-<kind>:<number class>`
+    with the classes of non-int numbers present (python float, numpy-integer, numpy-floating, ...)."""
+    name = "solve-number-domains"
+    has_model = False
+    ATOM_OBJS = {"x": p.Variable("x"), "y": p.Variable("y"), "z": p.Variable("z"),
+                 "w": p.Variable("w"), "p": p.Variable("p"), "q": p.Variable("q"),
+                 "a0": p.Subscript(p.Variable("a"), 0)}
+
+    # --- generation ---------------------------------------------------------------------------
+    @staticmethod
+    def _frac(rng):
+        return rng.choice([(1, 2), (1, 2), (-1, 2), (3, 2), (1, 4), (-3, 4), (5, 2), (1, 8)])
+
+    def _one(self, rng, dom):
+        n = rng.choice([1, 2, 2, 3])
+        params = ["p", "q", "a0"][:rng.choice([0, 0, 1, 1, 2])]
+        w = len(params) + 1
+        vals = [-2, -1, 0, 1, 2, 3]
+        kind = rng.random()
+        if kind < 0.8:
+            # uniquely solvable with integral solution: permuted unit-triangular A, B = A X
+            rows = [[(rng.choice([1, 1, -1]) if i == j else (rng.choice(vals) if j > i else 0))
+                     for j in range(n)] for i in range(n)]
+            for _ in range(rng.randint(0, 2)):
+                if n >= 2:
+                    i, k = rng.sample(range(n), 2)
+                    c = rng.choice([1, -1, 2])
+                    rows[i] = [a + c * b for a, b in zip(rows[i], rows[k])]
+            sol = [[rng.choice(vals) for _ in range(w)] for _ in range(n)]
+            rhs = [[sum(rows[i][j] * sol[j][k] for j in range(n)) for k in range(w)]
+                   for i in range(n)]
+            if rng.random() < 0.25:
+                k = rng.randrange(n)           # a dependent, consistent extra equation
+                rows.append([2 * a for a in rows[k]])
+                rhs.append([2 * b for b in rhs[k]])
+        else:
+            m = rng.randint(max(1, n - 1), n + 1)
+            rows = [[rng.choice(vals) for _ in range(n)] for _ in range(m)]
+            rhs = [[rng.choice(vals) for _ in range(w)] for _ in range(m)]
+        order = list(range(len(rows)))
+        rng.shuffle(order)
+        rows = [[(v, 1) for v in rows[i]] for i in order]
+        rhs = [[(v, 1) for v in rhs[i]] for i in order]
+        fractional = dom not in INTEGRAL_DOMAINS and rng.random() < 0.6
+        if fractional:
+            # a fractional part somewhere: mostly in a constant term, sometimes in a coefficient
+            for _ in range(rng.choice([1, 1, 2])):
+                i = rng.randrange(len(rows))
+                f = self._frac(rng)
+                k = rng.random()
+                if k < 0.6:
+                    col = w - 1
+                elif k < 0.8:
+                    col = rng.randrange(w)
+                else:
+                    col = None
+                if col is None:
+                    j = rng.randrange(n)
+                    a, b = rows[i][j]
+                    rows[i][j] = (a * f[1] + f[0] * b, b * f[1])
+                else:
+                    a, b = rhs[i][col]
+                    rhs[i][col] = (a * f[1] + f[0] * b, b * f[1])
+            if rng.random() < 0.15:
+                i = rng.randrange(len(rows))   # a whole equation halved
+                rows[i] = [(a, b * 2) for a, b in rows[i]]
+                rhs[i] = [(a, b * 2) for a, b in rhs[i]]
+        unk = rng.sample(["x", "y", "z", "w"], n)
+        p_const, p_par, p_unk = rng.choice([(0.9, 0.0, 0.0), (0.8, 0.5, 0.0), (0.8, 0.5, 0.3),
+                                            (1.0, 1.0, 1.0)])
+
+        def num(v, prob):
+            a, b = v
+            fr = Fraction(a, b)
+            a, b = fr.numerator, fr.denominator
+            d = dom
+            if b != 1 and dom in INTEGRAL_DOMAINS:
+                d = "float"
+            elif b == 1 and rng.random() >= prob:
+                d = "int"
+            if d == "bool" and a not in (0, 1):
+                d = "int"
+            if d == "np.uint8" and a < 0:
+                d = "int"
+            if d == "np.int8" and rng.random() < 0.05:
+                a = rng.choice([100, -100, 127, 64])
+            return [d, a, b]
+
+        eqs = []
+        for a_row, b_row in zip(rows, rhs):
+            lt = [[num(v, p_unk), u] for v, u in zip(a_row, unk)]
+            rt = [[num(v, p_par), pa] for v, pa in zip(b_row[:-1], params)] + [[num(b_row[-1], p_const), None]]
+            if rng.random() < 0.7:               # drop the zero terms (keep at least the constant)
+                lt = [t for t in lt if t[0][1] != 0]
+                rt = [t for t in rt if t[0][1] != 0 or t[1] is None]
+            if rng.random() < 0.3:               # some terms on the other side, sign flipped
+                def neg(t):
+                    (d, a, b), atom = t
+                    if d in ("np.uint8", "bool") and a != 0:
+                        d = "int"
+                    return [[d, -a, b], atom]
+                l2, r2 = [], []
+                for t in lt:
+                    if rng.random() < 0.7:
+                        l2.append(t)
+                    else:
+                        r2.append(neg(t))
+                for t in rt:
+                    if rng.random() < 0.75:
+                        r2.append(t)
+                    else:
+                        l2.append(neg(t))
+                lt, rt = l2, r2
+            if rng.random() < 0.3:
+                rng.shuffle(rt)
+            eqs.append({"l": lt, "r": rt})
+        return {"unknowns": unk, "eqs": eqs, "domain": dom,
+                "spelling": rng.choice(["tree", "tree", "ops", "bare1"]), "style": "domain"}
+
+    def cases(self, rng, tier):
+        n = 1400 if tier == "quick" else 30000
+        for i in range(n):
+            yield self._one(rng, NUMBER_DOMAINS[i % len(NUMBER_DOMAINS)])
+        # x = c, x + c = 0, c*x = c', x = c*p + c' for one c of every domain
+        for dom in NUMBER_DOMAINS:
+            for (a, b) in [(3, 1), (1, 1), (5, 2), (-7, 4), (0, 1)]:
+                if b != 1 and dom in INTEGRAL_DOMAINS:
+                    continue
+                if dom == "bool" and a not in (0, 1) or dom == "np.uint8" and a < 0:
+                    continue
+                c, one = [dom, a, b], ["int", 1, 1]
+                for eqs in ([{"l": [[one, "x"]], "r": [[c, None]]}],
+                            [{"l": [[one, "x"], [c, None]], "r": [[["int", 0, 1], None]]}],
+                            [{"l": [[["int", 2, 1], "x"], [one, "y"]], "r": [[c, None]]},
+                             {"l": [[one, "x"]], "r": [[one, "y"]]}],
+                            [{"l": [[one, "x"]], "r": [[c, "p"], [["int", 1, 1], None]]}],
+                            [{"l": [[one, "x"], [one, "y"]], "r": [[["int", 2, 1], "p"], [c, None]]},
+                             {"l": [[one, "y"]], "r": [[one, "p"]]}]):
+                    yield {"unknowns": ["x", "y"][:1 + any(t[1] == "y" for q_ in eqs for t in q_["l"])],
+                           "eqs": eqs, "domain": dom, "spelling": "tree", "style": "domain-example"}
+
+    # --- building the system --------------------------------------------------------------------
+    def _term(self, t, spelling):
+        (dom, a, b), atom = t
+        c = make_number(dom, a, b)
+        if atom is None:
+            return c
+        v = self.ATOM_OBJS[atom]
+        if spelling == "bare1" and dom == "int" and a == 1:
+            return v
+        if spelling == "ops":
+            try:
+                r = c * v
+                if isinstance(r, p.Expression):
+                    return r
+            except Exception:
+                pass
+        return p.Product((c, v))
+
+    def _side(self, terms, spelling):
+        ts = [self._term(t, spelling) for t in terms]
+        if not ts:
+            return 0
+        if len(ts) == 1:
+            return ts[0]
+        if spelling == "ops":
+            try:
+                acc = ts[0]
+                for t in ts[1:]:
+                    acc = acc + t
+                if isinstance(acc, p.Expression):
+                    return acc
+            except Exception:
+                pass
+        return p.Sum(tuple(ts))
+
+    def _eqs(self, pl):
+        sp = pl.get("spelling", "tree")
+        return [(self._side(q_["l"], sp), self._side(q_["r"], sp)) for q_ in pl["eqs"]]
+
+    def request(self, pl):
+        return "(noop)"
+
+    def _run(self, pl):
+        import warnings
+        with warnings.catch_warnings():
+            warnings.simplefilter("ignore")      # numpy: overflow in narrow integer scalars
+            return super()._run(pl)
+
+    def run_impl(self, pl):
+        try:
+            res = self._run(pl)
+        except RecursionError:
+            raise
+        except Exception as ex:
+            return err_sx(ex)
+        return "(sol" + "".join(f" ({show(k)} {show(v)}:{type(v).__name__})" for k, v in res.items()) + ")"
+
+    # --- the statement ------------------------------------------------------------------------------
+    def _linear_form(self, e):
+        k = len(self.ATOMS)
+        zero = [Fraction(0)] * k
+        try:
+            c0 = qeval_numbers(e, self._env_of(zero))
+            cs = []
+            for i in range(k):
+                v = list(zero)
+                v[i] = Fraction(1)
+                cs.append(qeval_numbers(e, self._env_of(v)) - c0)
+            for pt in ([Fraction(2), Fraction(-3), Fraction(5), Fraction(-7, 4), Fraction(7, 2),
+                        Fraction(-1, 3), Fraction(4), Fraction(9, 5)],
+                       [Fraction(-1, 2), Fraction(3), Fraction(2, 7), Fraction(8, 3), Fraction(-6),
+                        Fraction(1), Fraction(5, 3), Fraction(-2)]):
+                if qeval_numbers(e, self._env_of(pt)) != c0 + sum(c * v for c, v in zip(cs, pt)):
+                    return None
+        except RecursionError:
+            raise
+        except Exception:
+            return None
+        return cs, c0
+
+    @staticmethod
+    def _classes(pl):
+        cl = sorted({number_class(t[0][0]) for q_ in pl["eqs"] for t in q_["l"] + q_["r"]} - {"int"})
+        return ",".join(cl) or "int"
+
+    def oracle(self, pl):
+        try:
+            res = self._run(pl)
+        except RecursionError:
+            raise
+        except Exception:
+            return None              # raising is always allowed by the statement
+        unk = list(pl["unknowns"])
+        forms = []
+        for l, r in self._eqs(pl):
+            fl, fr = self._linear_form(l), self._linear_form(r)
+            if fl is None or fr is None:
+                return None
+            forms.append(([a - b for a, b in zip(fl[0], fr[0])], fr[1] - fl[1]))
+        verdict = self._judge(res, forms, unk)
+        if verdict is None:
+            return None
+        kind, detail = verdict
+        shown = "; ".join(f"{show(l)} = {show(r)}" for l, r in self._eqs(pl))
+        detail = f"{detail}  [system: {shown}; numbers: {self._classes(pl)}]"
+        if kind.startswith(("accepts-underdetermined", "accepts-inconsistent")):
+            return Failure("solver-" + kind, detail, pl)
+        return Failure(f"solver-{kind}:{self._classes(pl)}", detail, pl)
+
+    def shrink(self, pl):
+        eqs = pl["eqs"]
+        for i in range(len(eqs)):
+            if len(eqs) > 1:
+                yield {**pl, "eqs": eqs[:i] + eqs[i + 1:]}
+        if len(pl["unknowns"]) > 1:
+            yield {**pl, "unknowns": pl["unknowns"][:-1]}
+        if pl.get("spelling") != "tree":
+            yield {**pl, "spelling": "tree"}
+        for i, q_ in enumerate(eqs):
+            for sd in ("l", "r"):
+                ts = q_[sd]
+                for j in range(len(ts)):
+                    yield {**pl, "eqs": eqs[:i] + [{**q_, sd: ts[:j] + ts[j + 1:]}] + eqs[i + 1:]}
+                    (dom, a, b), atom = ts[j]
+                    if dom != "int" and b == 1:
+                        yield {**pl, "eqs": eqs[:i] + [{**q_, sd: ts[:j] + [[["int", a, 1], atom]] + ts[j + 1:]}] + eqs[i + 1:]}
+                    if abs(a) > 1 and dom != "bool":
+                        for na in ((a // abs(a)), a - (a // abs(a)) * b if abs(a) > b else None):
+                            if na is not None and na != a:
+                                yield {**pl, "eqs": eqs[:i] + [{**q_, sd: ts[:j] + [[[dom, na, b], atom]] + ts[j + 1:]}] + eqs[i + 1:]}
+
+    def nontrivial_key(self, pl, model, impl):
+        return str(pl["unknowns"]) + str(pl["eqs"]) + pl.get("spelling", "")
+
+    def stats(self, pl, mo, io, acc):
+        o = acc.setdefault("outcomes_by_class", {})
+        k = number_class(pl["domain"]) + ":" + ("accepted" if io.startswith("(sol") else "raised")
+        o[k] = o.get(k, 0) + 1
+
+# }}}
+
+
 # {{{ T-gen: the regenerated table and the streams that run its interpreter
 
 def extract(ctx=None):
@@ -1306,7 +1938,8 @@ PROP = Prop(
     theorems=[],
     extractors=[extract],
     streams=[CoeffStream(), GaussStream(), SolveStream(), SingularSolveStream(),
-             TableCoeffStream(), TableGaussStream(), TableSolveStream()],
+             TableCoeffStream(), TableGaussStream(), TableSolveStream(),
+             CoeffHistoryStream(), NumberDomainSolveStream()],
     probes=[probe],
     trusted_base=["Lean 4.33 kernel; axioms propext, Classical.choice, Quot.sound only",
                   "harness serialisation; PyNum/Ops as models of CPython arithmetic and of the "
